@@ -120,15 +120,16 @@ theorem tokenReview_inv {r : Review} {k : KubeInfo} (h : tokenReviewResult r = s
           · simp at h
 
 /-- The kube authenticator yields exactly one identity: the SPIFFE URI of the namespace and service
-    account the API server reported for the token (both non-empty), with that pod information.  The
-    review that was submitted is for the presented bearer token, bound to the configured audiences
-    (`security.TokenAudiences`), at the API server of the cluster the caller named. -/
+    account that the API server of the cluster the caller named reported for the review of THE
+    PRESENTED bearer token for the configured audiences (`security.TokenAudiences`) - `api` is applied
+    to exactly that call and to nothing else -, both non-empty, with that pod information. -/
 theorem kube_identity_from_review {t : Transport} {td : String} {cfg : KubeCfg} {hdr : Option (List String)}
-    {authVals aud : List String} {r : Review} {c : Caller} {call : Option ReviewCall}
-    (h : kubeAuthenticate t td cfg hdr authVals aud r = (.ok c, call)) :
+    {authVals aud : List String} {api : ReviewCall → Review} {c : Caller} {call : Option ReviewCall}
+    (h : kubeAuthenticate t td cfg hdr authVals aud api = (.ok c, call)) :
     ∃ tok cl k, extractToken t authVals = some tok ∧ getKubeClient cfg (clusterIDOf t hdr) = some cl ∧
       call = some { client := cl, token := tok, audiences := aud } ∧
-      tokenReviewResult r = some k ∧ k.podNamespace ≠ "" ∧ k.podSA ≠ "" ∧
+      tokenReviewResult (api { client := cl, token := tok, audiences := aud }) = some k ∧
+      k.podNamespace ≠ "" ∧ k.podSA ≠ "" ∧
       c = { identities := [spiffeURI td k.podNamespace k.podSA], kube := k } := by
   unfold kubeAuthenticate at h
   split at h
@@ -151,10 +152,10 @@ theorem kube_identity_from_review {t : Transport} {td : String} {cfg : KubeCfg} 
             exact ⟨tok, cl, k, htok, hcl, h.2.symm, hk, hns, hsa, h.1.symm⟩
 
 /-- Whenever a TokenReview is submitted - whatever its outcome - it carries the presented token and
-    the configured audiences. -/
+    the configured audiences, and goes to the cluster the caller named. -/
 theorem kube_review_binds_token_and_audience {t : Transport} {td : String} {cfg : KubeCfg} {hdr : Option (List String)}
-    {authVals aud : List String} {r : Review} {call : ReviewCall}
-    (h : (kubeAuthenticate t td cfg hdr authVals aud r).2 = some call) :
+    {authVals aud : List String} {api : ReviewCall → Review} {call : ReviewCall}
+    (h : (kubeAuthenticate t td cfg hdr authVals aud api).2 = some call) :
     extractToken t authVals = some call.token ∧ call.audiences = aud ∧
     getKubeClient cfg (clusterIDOf t hdr) = some call.client := by
   unfold kubeAuthenticate at h
@@ -173,9 +174,25 @@ theorem kube_review_binds_token_and_audience {t : Transport} {td : String} {cfg 
           · simp only [Option.some.injEq] at h; subst h; exact ⟨htok, rfl, hcl⟩
           · simp only [Option.some.injEq] at h; subst h; exact ⟨htok, rfl, hcl⟩
 
+/-- Non-interference: the result depends on the API servers only through their answer to the one
+    submitted review - two API behaviours that agree on it give the same result. -/
+theorem kube_depends_only_on_submitted_review (t : Transport) (td : String) (cfg : KubeCfg) (hdr : Option (List String))
+    (authVals aud : List String) (api1 api2 : ReviewCall → Review)
+    (h : ∀ tok cl, extractToken t authVals = some tok → getKubeClient cfg (clusterIDOf t hdr) = some cl →
+      api1 { client := cl, token := tok, audiences := aud } = api2 { client := cl, token := tok, audiences := aud }) :
+    kubeAuthenticate t td cfg hdr authVals aud api1 = kubeAuthenticate t td cfg hdr authVals aud api2 := by
+  unfold kubeAuthenticate
+  split
+  · rfl
+  · rename_i tok htok
+    split
+    · rfl
+    · rename_i cl hcl
+      simp only [h tok cl htok hcl]
+
 /-- The kube authenticator never panics. -/
 theorem kube_total (t : Transport) (td : String) (cfg : KubeCfg) (hdr : Option (List String)) (authVals aud : List String)
-    (r : Review) : (kubeAuthenticate t td cfg hdr authVals aud r).1 ≠ .crash := by
+    (api : ReviewCall → Review) : (kubeAuthenticate t td cfg hdr authVals aud api).1 ≠ .crash := by
   unfold kubeAuthenticate
   split
   · simp
@@ -194,21 +211,33 @@ theorem extractToken_nil (t : Transport) : extractToken t [] = none := by
   cases t <;> simp [extractToken]
 
 /-- OIDC entry point: without an extractable token nothing is verified; otherwise the result is the
-    post-processing of the verifier's verdict - and it never panics on the fixed code. -/
-theorem oidc_entry_total (td : String) (expected : List String) (t : Transport) (authVals : List String) (v : OidcTok) :
-    oidcEntry true td expected t authVals v ≠ .crash := by
+    post-processing of the verifier's verdict ON THE EXTRACTED TOKEN - and it never panics on the
+    fixed code. -/
+theorem oidc_entry_total (td : String) (expected : List String) (t : Transport) (authVals : List String)
+    (verify : String → OidcTok) : oidcEntry true td expected t authVals verify ≠ .crash := by
   unfold oidcEntry
   split
   · simp
-  · exact oidc_sub_total td expected v
+  · exact oidc_sub_total td expected _
 
 theorem oidc_entry_identity {fixed : Bool} {td : String} {expected : List String} {t : Transport} {authVals : List String}
-    {v : OidcTok} {c : Caller} (h : oidcEntry fixed td expected t authVals v = .ok c) :
-    (extractToken t authVals).isSome = true ∧ oidcAuthenticate fixed td expected v = .ok c := by
+    {verify : String → OidcTok} {c : Caller} (h : oidcEntry fixed td expected t authVals verify = .ok c) :
+    ∃ tok, extractToken t authVals = some tok ∧ oidcAuthenticate fixed td expected (verify tok) = .ok c := by
   unfold oidcEntry at h
   split at h
   · simp at h
-  · rename_i tok htok; exact ⟨by simp [htok], h⟩
+  · rename_i tok htok; exact ⟨tok, htok, h⟩
+
+/-- Which token is validated: gRPC takes the first `Bearer ` value, so a later one never matters. -/
+theorem grpc_first_bearer_wins (tok : String) (rest : List String) :
+    extractToken .grpc (("Bearer " ++ tok) :: rest) = some tok := by
+  have h : cutPrefix "Bearer " ("Bearer " ++ tok) = some tok := by
+    unfold cutPrefix hasPrefix
+    have hp : "Bearer ".toList.isPrefixOf ("Bearer " ++ tok).toList = true := by
+      rw [String.toList_append]; simp
+    rw [if_pos hp, String.toList_append]
+    simp [String.ofList_toList]
+  simp [extractToken, List.findSome?, h]
 
 /-- A token is reviewed by the primary cluster only when the caller names the primary cluster, one
     of its aliases, or no cluster; otherwise by the named remote cluster (or its alias target). -/
@@ -238,10 +267,10 @@ theorem kube_client_selection (cfg : KubeCfg) (id : String) (cl : Client) (h : g
 /-- Identities are taken from the XFCC header only when the peer address is trusted (in a listed
     CIDR, or loopback); they are the URI, DNS and Subject-CN values of the parsed header elements. -/
 theorem xfcc_identity_from_trusted_header {cidrs : List String} {addr : String} {headers : List String}
-    {parsed : Option (List XfccElem)} {c : Caller}
-    (h : xfccAuthenticate cidrs addr headers parsed = .ok c) :
+    {parse : String → Option (List XfccElem)} {c : Caller}
+    (h : xfccAuthenticate cidrs addr headers parse = .ok c) :
     isTrustedAddress addr cidrs = .yes ∧ headers ≠ [] ∧
-    ∃ es, parsed = some es ∧ es ≠ [] ∧ c = { identities := xfccIDs es } ∧
+    ∃ es, parse (headers.headD "") = some es ∧ es ≠ [] ∧ c = { identities := xfccIDs es } ∧
       ∀ id ∈ c.identities, ∃ e ∈ es, id ∈ e.uris ∨ id ∈ e.dns ∨ e.subject = some id := by
   unfold xfccAuthenticate at h
   split at h
@@ -254,10 +283,10 @@ theorem xfcc_identity_from_trusted_header {cidrs : List String} {addr : String} 
       split at h
       · simp at h
       · simp at h
-      · rename_i e es
+      · rename_i e es hp
         simp only [AuthRes.ok.injEq] at h
         subst h
-        refine ⟨ht, ?_, e :: es, rfl, by simp, rfl, ?_⟩
+        refine ⟨ht, ?_, e :: es, hp, by simp, rfl, ?_⟩
         · intro hh; simp [hh] at h0
         · intro id hid
           simp only [xfccIDs, List.mem_flatMap, List.mem_append] at hid
@@ -273,8 +302,8 @@ theorem xfcc_identity_from_trusted_header {cidrs : List String} {addr : String} 
 
 /-- From an untrusted peer the header is never used. -/
 theorem xfcc_untrusted_peer_rejected (cidrs : List String) (addr : String) (headers : List String)
-    (parsed : Option (List XfccElem)) (h : isTrustedAddress addr cidrs = .no) :
-    xfccAuthenticate cidrs addr headers parsed = .err := by
+    (parse : String → Option (List XfccElem)) (h : isTrustedAddress addr cidrs = .no) :
+    xfccAuthenticate cidrs addr headers parse = .err := by
   unfold xfccAuthenticate
   split
   · rfl
@@ -401,7 +430,9 @@ example : oidcAuthenticate true "td@corp" ["istio-ca"] (.claims "system:servicea
 
 example : kubeAuthenticate .grpc "cluster.local" ⟨"Kubernetes", [("alias", "remote1")], some ["remote1"]⟩ (some ["alias"])
       ["Basic x", "Bearer tok"] ["istio-ca"]
-      { groups := ["system:serviceaccounts"], username := "system:serviceaccount:istio-system:ztunnel", podName := some ["zt"], podUID := some ["u1"] } =
+      (fun call => if call.token = "tok" ∧ call.audiences = ["istio-ca"] then
+        { groups := ["system:serviceaccounts"], username := "system:serviceaccount:istio-system:ztunnel", podName := some ["zt"], podUID := some ["u1"] }
+        else { authenticated := false }) =
     (.ok { identities := ["spiffe://cluster.local/ns/istio-system/sa/ztunnel"],
            kube := { podName := "zt", podNamespace := "istio-system", podUID := "u1", podSA := "ztunnel" } },
      some { client := .remote "remote1", token := "tok", audiences := ["istio-ca"] }) := by
@@ -413,7 +444,8 @@ example : extractToken .http ["Istio tok"] = some "tok" ∧ extractToken .grpc [
 example : isTrustedAddress "10.1.2.3:555" ["10.0.0.0/8"] = .yes ∧ isTrustedAddress "11.1.2.3:555" ["10.0.0.0/8"] = .no ∧
     isTrustedAddress "[::1]:80" [] = .yes ∧ isTrustedAddress "[::ffff:10.1.2.3]:1" ["10.0.0.0/8"] = .no := by decide
 
-example : xfccAuthenticate ["10.0.0.0/8"] "10.1.2.3:555" ["h"] (some [⟨["spiffe://a/ns/b/sa/c"], ["foo.com"], some "bar"⟩]) =
+example : xfccAuthenticate ["10.0.0.0/8"] "10.1.2.3:555" ["h", "h2"]
+      (fun v => if v = "h" then some [⟨["spiffe://a/ns/b/sa/c"], ["foo.com"], some "bar"⟩] else some [⟨["spiffe://evil"], [], none⟩]) =
     .ok { identities := ["spiffe://a/ns/b/sa/c", "foo.com", "bar"] } := by decide
 
 end IstioModel.C09
